@@ -1824,8 +1824,15 @@ std::string Generator::GeneratorImpl::generateEquationCode(const AnalyserEquatio
 
         remainingEquations.erase(std::find(remainingEquations.begin(), remainingEquations.end(), equation));
 
+        // Note: an NLA sibling may already have been dealt with as the sibling
+        //       of another equation.
+
         for (const auto &nlaSibling : equation->nlaSiblings()) {
-            remainingEquations.erase(std::find(remainingEquations.begin(), remainingEquations.end(), nlaSibling));
+            auto nlaSiblingIt = std::find(remainingEquations.begin(), remainingEquations.end(), nlaSibling);
+
+            if (nlaSiblingIt != remainingEquations.end()) {
+                remainingEquations.erase(nlaSiblingIt);
+            }
         }
 
         // Generate any dependency that this equation may have.
